@@ -1313,6 +1313,12 @@ func groupProbe(ctx context.Context, out *vc.Out, r *vc.Rng) {
 		rows = append(rows, row{as[r.Intn(len(as))], bs[r.Intn(len(bs))], []int{1, 11, 12, 2, 0, 111}[r.Intn(6)], []int{1, 11, 2, 21, 0, 10}[r.Intn(6)]})
 	}
 	rows = append(rows, row{"ab", "c", 1, 11}, row{"a", "bc", 11, 1}, row{"", "abc", 1, 2}, row{"1", "2x", 12, 0}, row{"12", "x", 1, 20})
+	// values that contain what separates the parts of a group key, with every small field index
+	for k := 0; k < 7; k++ {
+		rows = append(rows, row{fmt.Sprintf("x_%d_y", k), "z", 5, 5}, row{"x", fmt.Sprintf("y_%d_z", k), 5, 5})
+	}
+	// the text that a missing value prints as
+	rows = append(rows, row{"<nil>", "q", 6, 6})
 	for i, w := range rows {
 		d, err := client.NewDocFromJSON([]byte(fmt.Sprintf(`{"a": %q, "b": %q, "n": %d, "m": %d}`, w.a, w.b, w.n, w.m)), col.Definition())
 		must(err)
@@ -1320,6 +1326,9 @@ func groupProbe(ctx context.Context, out *vc.Out, r *vc.Rng) {
 		if err := col.Create(ctx, d); err != nil {
 			continue // the same content twice: one document
 		}
+	}
+	if d, err := client.NewDocFromJSON([]byte(`{"b": "q", "n": 6, "m": 6}`), col.Definition()); err == nil {
+		_ = col.Create(ctx, d)
 	}
 	// the documents as stored (identical contents collapse into one document)
 	res := nd.GQL(ctx, `query { G { a b n m } }`)
